@@ -1,5 +1,6 @@
 import engine_check
 import shipped
+import Contrib
 
 
 def run(ctx):
@@ -7,7 +8,11 @@ def run(ctx):
     # contrib rules and shipped grammars (integer, raw_string, rep_one_min_max, predicates, http chunk rules, json, uri, ...):
     # oracle on the implementation's own invocation trace (no engine-model comparison in this stage)
     shipped.run_oracle(ctx, "C02")
+    # rep_one_min_max, predicates, http chunk rules: Coq models (Contrib.v, Properties_Contrib.v) + model/implementation correspondence + oracle
+    Contrib.stage(ctx)
 
 
 def replay(j):
+    if (j.get("replay") or {}).get("stage") == "contrib":
+        return Contrib.replay(j)
     return engine_check.replay(j)
